@@ -131,6 +131,7 @@ def run(repo: Repo, rep: Report, tier: str) -> None:
     reach = {("Sta1", "never")}
     work = [("Sta1", "never")]
     edges = {}
+    all_edges = []
     while work:
         st, ar = work.pop()
         if ar == "stopped-late":
@@ -147,6 +148,7 @@ def run(repo: Repo, rep: Report, tier: str) -> None:
                     if kills and nxt == "Sta1":
                         continue  # reactor stops; a new association starts from (Sta1, never) in a new provider
                     key = (nxt, ar2)
+                    all_edges.append(((st, ar), key, ev, a, ops))
                     if key not in reach:
                         reach.add(key)
                         edges[key] = (st, ar, ev, a)
@@ -163,6 +165,42 @@ def run(repo: Repo, rep: Report, tier: str) -> None:
         fn = am.action_func(how[3]) if how else None
         rep.check(ok, "artim", f"fsm.{fn.name}" if fn else "fsm.TRANSITION_TABLE", f"({st}, ARTIM {ar}) {via}", f"ARTIM can report expiry in {st} ({'running' if ar == 'running' else 'stopped after its deadline: Timer keeps reporting expired'}), run_reactor then queues Evt18, but (Evt18, {st}) is not in the transition table: InvalidEventError kills the provider thread", mod=fsm, node=(fn or fsm.assign_stmts['TRANSITION_TABLE'][0]))
     rep.floor("(state, ARTIM) pairs that can report expiry", n_pairs, 2)
+
+    # ---- the deadline cannot be pushed back by the peer -------------------------------------------
+    # While ARTIM runs, the provider's return to idle hangs on Evt18. If a cycle of peer-driven events
+    # (received PDUs, valid or not) through pairs with the timer running contains a (re)start, the peer
+    # postpones the expiry for as long as it keeps sending: the provider never gets back to Sta1.
+    rep.rule("artim-progress", "no cycle of peer-driven events through states with ARTIM running restarts the timer (the peer cannot postpone Evt18 indefinitely)")
+    PEER = {"Evt3", "Evt4", "Evt6", "Evt10", "Evt12", "Evt13", "Evt16", "Evt19"}
+    succ: dict = {}
+    for u, v, ev, a, ops in all_edges:
+        if ev in PEER and u[1] == "running" and v[1] == "running":
+            succ.setdefault(u, set()).add(v)
+
+    def reaches(src, dst):
+        seen, todo = {src}, [src]
+        while todo:
+            x = todo.pop()
+            if x == dst:
+                return True
+            for y in succ.get(x, ()):
+                if y not in seen:
+                    seen.add(y)
+                    todo.append(y)
+        return False
+
+    n_cyc = 0
+    reported = set()
+    for u, v, ev, a, ops in all_edges:
+        if ev in PEER and u[1] == "running" and v[1] == "running":
+            n_cyc += 1
+            if any(op in ("start", "restart") for op in ops) and reaches(v, u) and a not in reported:
+                reported.add(a)
+                fn = am.action_func(a)
+                rep.fail("artim-progress", f"fsm.{fn.name}", f"({u[0]}, {ev}) -> {a} -> {v[0]} restarts ARTIM on a cycle", f"{a} (re)starts ARTIM on {ev} in {u[0]} and the provider can come back to {u[0]} with the timer running on peer-driven events alone: a peer that keeps sending PDUs postpones the ARTIM expiry indefinitely, the provider stays in {u[0]} and never returns to idle or closes the connection", mod=fsm, node=fn)
+    if not reported:
+        rep.ok("artim-progress", f"{n_cyc} peer-driven transitions between pairs with ARTIM running: none on a cycle restarts the timer")
+    rep.floor("peer-driven transitions with ARTIM running", n_cyc, 5)
 
     # ---- queue guards ---------------------------------------------------------------------
     from ..escape import catches
